@@ -30,7 +30,14 @@ class IndentationFeatures(object):
     def has_contact_point(self):
         if self.is_fitted:
             pint = self.dataset.fit_properties["params_fitted"]
-            return "contact_point" in pint
+            if "contact_point" not in pint:
+                return False
+            # All features that make use of the contact point assume that
+            # the approach part starts far away from the sample (see
+            # `datax_apr`). For data where this is not the case (e.g. a
+            # corrupt approach segment), these features are undefined.
+            x = self._get_datax_apr()
+            return bool(x.size >= 2 and x[0] > x[-1])
         else:
             return False
 
@@ -52,12 +59,15 @@ class IndentationFeatures(object):
     def datares_apr(self):
         return self.datafit_apr - self.datay_apr
 
-    @property
-    def datax_apr(self):
+    def _get_datax_apr(self):
         xaxis = self.dataset.fit_properties.get("x_axis",
                                                 FP_DEFAULT["x_axis"])
         seg = self.dataset["segment"] == 0
-        x = self.dataset[xaxis][seg].copy()
+        return self.dataset[xaxis][seg].copy()
+
+    @property
+    def datax_apr(self):
+        x = self._get_datax_apr()
         # Make sure everything is ok
         assert x[0] > x[-1], "Approach from large distances towards lower"
         return x
